@@ -702,4 +702,124 @@ theorem failed_tx_without_force_writes_changes_nothing (t : Track) (hf : t.force
   rw [hsu, hd, hdb]
   rfl
 
+/-! ### what the reverted track holds for every substate that was not force-written -/
+
+theorem smap_get_map_revert (part : TPart) (k : Nat) :
+    SMap.get? (part.map (fun ktv => (ktv.1, ktv.2.revertWrites))) k
+      = (SMap.get? part k).map TV.revertWrites := by
+  induction part with
+  | nil => rfl
+  | cons kv rest ih =>
+    simp only [List.map_cons, SMap.get?]
+    split
+    · rfl
+    · exact ih
+
+theorem imap_get_map_parts (parts : List (Nat × TPart)) (p : Nat) :
+    IMap.get? (parts.map (fun pp => (pp.1, pp.2.map (fun ktv => (ktv.1, ktv.2.revertWrites))))) p
+      = (IMap.get? parts p).map (fun part => part.map (fun ktv => (ktv.1, ktv.2.revertWrites))) := by
+  induction parts with
+  | nil => rfl
+  | cons pp rest ih =>
+    simp only [List.map_cons, IMap.get?]
+    split
+    · rfl
+    · exact ih
+
+theorem imap_get_none_of_fresh (nodes : Nodes) (n : Nat) (h : ∀ a ∈ nodes, n ≠ a.1) :
+    IMap.get? nodes n = none := by
+  induction nodes with
+  | nil => rfl
+  | cons nn rest ih =>
+    simp only [IMap.get?]
+    rw [if_neg (h nn (List.mem_cons_self ..))]
+    exact ih (fun a ha => h a (List.mem_cons_of_mem _ ha))
+
+theorem imap_get_kept (nodes : Nodes) (hn : IMap.Nodup nodes) (n : Nat) :
+    IMap.get? ((IMap.retain nodes (fun _ nd => !nd.isNew)).map
+        (fun nn => (nn.1, nn.2.revertWrites))) n
+      = match IMap.get? nodes n with
+        | none => none
+        | some nd => if nd.isNew then none else some nd.revertWrites := by
+  induction nodes with
+  | nil => rfl
+  | cons nn rest ih =>
+    have hp := List.pairwise_cons.mp hn
+    have ih' := ih hp.2
+    simp only [IMap.retain] at ih' ⊢
+    by_cases hk : n = nn.1
+    · subst hk
+      have hrest : IMap.get? rest nn.1 = none := imap_get_none_of_fresh rest nn.1 (fun a ha => hp.1 a ha)
+      by_cases hnew : nn.2.isNew = true
+      · simp only [List.filter_cons, hnew, Bool.not_true, Bool.false_eq_true, if_false, IMap.get?, if_true]
+        rw [ih', hrest]
+      · have hnew' : nn.2.isNew = false := by simpa using hnew
+        simp only [List.filter_cons, hnew', Bool.not_false, if_true, List.map_cons, IMap.get?]
+        simp
+    · by_cases hnew : nn.2.isNew = true
+      · simp only [List.filter_cons, hnew, Bool.not_true, Bool.false_eq_true, if_false, IMap.get?, hk]
+        exact ih'
+      · have hnew' : nn.2.isNew = false := by simpa using hnew
+        simp only [List.filter_cons, hnew', Bool.not_false, if_true, List.map_cons, IMap.get?, hk, if_false]
+        exact ih'
+
+/-- lookup in the reverted surviving nodes: nothing for a node created by the transaction, the
+reverted tracked value otherwise -/
+theorem lookupIn_kept (nodes : Nodes) (hn : IMap.Nodup nodes) (n p k : Nat) :
+    lookupIn ((IMap.retain nodes (fun _ nd => !nd.isNew)).map
+        (fun nn => (nn.1, nn.2.revertWrites))) n p k
+      = match IMap.get? nodes n with
+        | none => none
+        | some nd => if nd.isNew then none else (lookupIn nodes n p k).map TV.revertWrites := by
+  unfold lookupIn
+  rw [imap_get_kept nodes hn n]
+  cases hg : IMap.get? nodes n with
+  | none => rfl
+  | some nd =>
+    simp only []
+    by_cases hnew : nd.isNew = true
+    · simp [hnew]
+    · have hnew' : nd.isNew = false := by simpa using hnew
+      simp only [hnew', Bool.false_eq_true, if_false, TNode.revertWrites, imap_get_map_parts]
+      cases IMap.get? nd.parts p with
+      | none => rfl
+      | some part => simp only [Option.map]; exact smap_get_map_revert part k
+
+/-- `revert_tracked_value`: after a successful revert, a substate that was not force-written is
+untracked if its node was created by the transaction (or was never tracked) and otherwise holds
+the reverted (`revert_writes`) form of what was tracked before. -/
+theorem revert_tracked_value (t t' : Track) (hr : revert t = some t') (hn : IMap.Nodup t.nodes)
+    (n p k : Nat) (hout : ¬ InForce t.force n p k) :
+    lookupIn t'.nodes n p k
+      = match IMap.get? t.nodes n with
+        | none => none
+        | some nd => if nd.isNew then none else (lookupIn t.nodes n p k).map TV.revertWrites := by
+  rw [revert_keeps_only_force_writes_frame t t' hr n p k hout, lookupIn_kept _ hn]
+
+/-- `revert_keeps_only_force_writes`: after a successful revert, whatever is tracked for a substate
+outside the force-write set contributes NO state update. With `revert_keeps_force_writes` this is
+the revert clause of the property for the whole track: only force-written substates survive. -/
+theorem revert_keeps_only_force_writes (t t' : Track) (hr : revert t = some t')
+    (hn : IMap.Nodup t.nodes) (n p k : Nat) (hout : ¬ InForce t.force n p k) (tv : TV)
+    (htv : lookupIn t'.nodes n p k = some tv) : tv.toUpdate = none := by
+  rw [revert_tracked_value t t' hr hn n p k hout] at htv
+  cases hg : IMap.get? t.nodes n with
+  | none => rw [hg] at htv; cases htv
+  | some nd =>
+    rw [hg] at htv
+    simp only [] at htv
+    split at htv
+    · cases htv
+    · cases hl : lookupIn t.nodes n p k with
+      | none => rw [hl] at htv; cases htv
+      | some tv0 =>
+        rw [hl] at htv
+        simp only [Option.map, Option.some.injEq] at htv
+        rw [← htv]; exact revert_value_partial tv0
+
+/-- non-vacuity: written-then-reverted substate `(0,0,2)` next to the force-written `(0,0,1)` -/
+example : (revert (run (Db.empty.set (0, 0) [(1, 10), (2, 20)])
+      [.get 0 0 1, .forceWrite 0 0 1, .get 0 0 2, .set 0 0 2 7])).map
+        (fun t' => lookupIn t'.nodes 0 0 2) = some (some (TV.readOnly (some 20))) := by decide
+
 end Radix.Track
